@@ -539,7 +539,8 @@ def step (st : St) (toks : List String) : St × String :=
     | some proto, some cipher, some mode =>
       let okCfg := (Config.cipherOf cipher).isSome && (Consts.protocolNames.any (·.1 == proto)) && (Consts.modeNames.any (·.1 == mode))
       if okCfg then
-        let udp := match (Consts.modeNames.find? (·.1 == mode)) with
+        -- (`cmode`: the client's mode when it differs — datagrams of vmess / trojan travel inside the tcp transport)
+        let udp := match (Consts.modeNames.find? (·.1 == (kv rest "cmode").getD mode)) with
           | some (_, v) => Consts.modeUdp.contains v
           | none => false
         ({ st with objs := st.objs.insert name (.world { protocol := proto, udp := udp, link := kv rest "link" == some "1" }) }, "ok")
@@ -564,6 +565,18 @@ def step (st : St) (toks : List String) : St × String :=
   | "e2e.udp" :: name :: _ =>
     match st.objs.get? name with
     | some (.world w) => ({ st with objs := st.objs.insert name (.world { w with udpSinceBase := true }) }, e2eUdp w)
+    | _ => (st, "bad-op")
+  | "e2e.udpm" :: name :: _ =>
+    -- several applications × several targets: every datagram reaches its own target once, every answer its own application
+    match st.objs.get? name with
+    | some (.world w) =>
+      ({ st with objs := st.objs.insert name (.world { w with udpSinceBase := true }) },
+        if !w.udp then "no-udp" else if w.listeners.serves && w.serverUp then "up=ok down=ok stray=0" else "up=diff down=diff stray=0")
+    | _ => (st, "bad-op")
+  | "e2e.ssid" :: name :: _ =>
+    -- fresh randomness per association: no (server session id, packet id) pair on two replies
+    match st.objs.get? name with
+    | some (.world w) => (st, if w.protocol != "shadowsocks" || !w.udp then "n/a" else "distinct")
     | _ => (st, "bad-op")
   | ["e2e.fault", name, kind, _] =>
     match st.objs.get? name, e2eFault kind with
